@@ -79,6 +79,17 @@ def acos_axioms(p, theta_atom_arg):
     return p
 
 
+def abs_by_sign(p, dot, sg, pc):
+    """|x.y| -> sign * x.y on a path that fixes the sign of x.y"""
+    if sg is None:
+        return p
+    for a in sorted(p.atoms()):
+        k = P.atom_key(a)
+        if k[0] == 'fabs' and (k[1][1] == dot or k[1][1] == -dot):
+            p = p.subst(a, dot.scale(sg))
+    return p
+
+
 def zero_angle(p):
     """sin(0) -> 0, cos(0) -> 1"""
     for a in trig_atoms(p):
@@ -129,6 +140,16 @@ def interp_case(fn_, T, lay='xyzw', negate=True, call=None):
 
         def regime(asg, infos):
             return ', '.join('%s %s %s' % (P.show_poly(infos[at][0], limit=2), '<' if v == 'lt' else '>', P.show_poly(infos[at][1], limit=2)) for at, v in asg.items() if at[0] == 'pair')[:260]
+        def path_witness(d, asg, infos):
+            """an explicit pair of unit quaternions (rational) that takes the path and at which the residual d is non-zero"""
+            if not P.transparent(d):
+                return None
+            cons = [(v, infos[at][0] - infos[at][1]) for at, v in asg.items() if at[0] == 'pair']
+            if not all(P.transparent(e_) for _, e_ in cons):
+                return None
+            if cons:
+                return P.find_witness(cons[0][0], cons[0][1], [d], extra=cons[1:], spheres=Q4.sph(x, y), tries=800)
+            return P.find_witness('gt', ONE, [d], spheres=Q4.sph(x, y), tries=800)
         # ---- end points -----------------------------------------------------------------------------------------------------------------
         for kern, nm_, tgt in ((k0, 'a=0', 'x'), (k1, 'a=1', 'y')):
             seen = set()
@@ -141,16 +162,21 @@ def interp_case(fn_, T, lay='xyzw', negate=True, call=None):
                 want = x if tgt == 'x' else tuple(q_.scale(sg if (sg is not None and negate) else 1) for q_ in y)
                 ok = True
                 for i in range(4):
-                    g = zero_angle(got[i])
-                    g = acos_axioms(g, None)
+                    g = Q4.deep(got[i], lambda q_: abs_by_sign(zero_angle(q_), dot, sg, cx), cx)
+                    g = Q4.deep(g, lambda q_: acos_axioms(q_, None), cx)
                     d = units(P.reduce_inv(P.reduce_sqrt(P.reduce_inv(g - want[i]))))
                     d2 = Q4.clear_invsqrt(P.reduce_inv(g - want[i]), cx)
                     if not d.is_zero() and not (d2 is not None and units(P.reduce_sqrt(d2)).is_zero()):
                         ok = False
                         bad = d
-                res.append(R.ob('%s.endpoint(%s).path%d' % (name, nm_, len(seen)), 'endpoints', R.PROVED if ok else R.UNDECIDED,
+                status, wit = (R.PROVED, '') if ok else (R.UNDECIDED, '')
+                if not ok:
+                    env = path_witness(bad, asg, infos)
+                    if env is not None:
+                        status, wit = R.REFUTED, ' -- e.g. at %s' % P.show_env(env)
+                res.append(R.ob('%s.endpoint(%s).path%d' % (name, nm_, len(seen)), 'endpoints', status,
                                 '%s(x, y, %s) == %s  [%s]' % (fn_, nm_[2:], 'x' if tgt == 'x' else ('-y' if (sg == -1 and negate) else 'y'), regime(asg, infos)) if ok else
-                                'residual %s  [%s]' % (P.show_poly(bad, limit=4), regime(asg, infos)), kernel=kern.source()))
+                                '%s(x, y, %s) is not %s: residual %s%s  [%s]' % (fn_, nm_[2:], 'x' if tgt == 'x' else '+-y on the shorter arc', P.show_poly(bad, limit=4), wit, regime(asg, infos)), kernel=kern.source()))
         # ---- spherical arm ----------------------------------------------------------------------------------------------------------------
         seen = set()
         nsph = 0
@@ -160,7 +186,8 @@ def interp_case(fn_, T, lay='xyzw', negate=True, call=None):
             if key in seen:
                 continue
             seen.add(key)
-            acs = {a_ for g in got for a_ in P.lane_atoms([]) | set(g.atoms())}
+            sg = sign_of_dot(asg, infos)
+            got = tuple(Q4.deep(g, lambda q_: abs_by_sign(q_, dot, sg, cx), cx) for g in got)
             thetas = set()
             for g in got:
                 for at in trig_atoms(g):
@@ -190,10 +217,11 @@ def interp_case(fn_, T, lay='xyzw', negate=True, call=None):
                 sin_t = sin_arg
             st, ct = Poly.atom(('fn:sin', ('P', theta))), Poly.atom(('fn:cos', ('P', theta)))
 
+            sta, cta = list(st.t)[0][0], list(ct.t)[0][0]
+
             def nrm(p_):
-                p_ = expand_angles(p_, theta, A)
-                p_ = p_.subst(list(st.t)[0][0], sin_t).subst(list(ct.t)[0][0], c) if True else p_
-                p_ = Q4.sincos(p_)
+                p_ = Q4.deep(p_, lambda q_: expand_angles(q_, theta, A).subst(sta, sin_t).subst(cta, c), cx)
+                p_ = units(Q4.sincos(p_))
                 y_ = Q4.clear_invsqrt(P.reduce_inv(p_), cx)
                 p_ = P.reduce_sqrt(y_) if y_ is not None else P.reduce_sqrt(P.reduce_inv(p_))
                 return Q4.sincos(units(p_))
@@ -202,7 +230,10 @@ def interp_case(fn_, T, lay='xyzw', negate=True, call=None):
             if negate:
                 d = units(c - sum((p_ * q_ for p_, q_ in zip(x, z)), Poly()))
                 okc = d.is_zero() and sg is not None
-                res.append(R.ob(pid + '.shorter_arc', 'shorter_arc', R.PROVED if okc else R.UNDECIDED,
+                st_ = R.PROVED if okc else R.UNDECIDED
+                if not okc and not d.is_zero() and path_witness(d, asg, infos) is not None:
+                    st_ = R.REFUTED
+                res.append(R.ob(pid + '.shorter_arc', 'shorter_arc', st_,
                                 'the angle is acos(x . z) with z = %sy on the path where x.y %s 0, i.e. acos(|x.y|) <= pi/2' % ('-' if sg == -1 else '', '<' if sg == -1 else '>=') if okc else
                                 'cos(theta) - x.z = %s (sign of x.y on the path: %s)' % (P.show_poly(d, limit=3), sg), kernel=k.source()))
             n2 = nrm(Q4.qnorm2(got) - ONE)
@@ -223,7 +254,8 @@ def interp_case(fn_, T, lay='xyzw', negate=True, call=None):
                     continue
                 pa, pb = infos[at]
                 for p1, p2, rel in ((pa, pb, v), (pb, pa, {'lt': 'gt', 'gt': 'lt'}[v])):
-                    if p1 == c and p2.is_const() and rel == 'lt' and Fraction(1, 2) < p2.cval() < 1:
+                    p1n = abs_by_sign(p1, dot, sg, cx)
+                    if (p1 == c or p1n == c) and p2.is_const() and rel == 'lt' and Fraction(1, 2) < p2.cval() < 1:
                         hi = p2.cval()
             res.append(R.ob(pid + '.guard', 'guard', R.PROVED if hi is not None else R.UNDECIDED,
                             'acos / division by sin(theta) are reached only with cos(theta) < %s < 1: theta is bounded away from 0' % float(hi) if hi is not None else
@@ -242,7 +274,8 @@ def interp_case(fn_, T, lay='xyzw', negate=True, call=None):
                 for asg2, infos2, got2, sg2 in sym:
                     if sg2 != sg or sg is None or (sg,) in done:
                         continue
-                    ok = all(nrm(got[i] - got2[i].scale(sg)).is_zero() for i in range(4))
+                    g2 = tuple(Q4.deep(g, lambda q_: abs_by_sign(q_, dot, sg, P.PCtx()), P.PCtx()) for g in got2)
+                    ok = all(nrm(got[i] - g2[i].scale(sg)).is_zero() for i in range(4))
                     done.add((sg,))
                     res.append(R.ob('%s.symmetry(x.y %s 0)' % (name, '<' if sg == -1 else '>'), 'symmetry', R.PROVED if ok else R.UNDECIDED,
                                     'slerp(x, y, a) == %sslerp(y, x, 1 - a)' % ('-' if sg == -1 else ''), kernel=k.source() + '\n' + ks.source()))
